@@ -260,6 +260,12 @@ func kindsIn(n node, acc map[string]bool) {
 
 var redirectCodes = []int{301, 302, 302, 303, 307, 308, 302, 301} //nolint:gochecknoglobals
 
+// codes a redirect error handler can be configured with since the loader validates them (300..399, boundaries included)
+var handlerCodes = []int{301, 302, 303, 307, 308, 300, 399, 304} //nolint:gochecknoglobals
+
+// codes tried against the real constructor (creation probe)
+var probeCodes = []int{0, 299, 300, 301, 302, 399, 400, 200, 204, 100, 5, 99, -1, -302, 1000, 3020} //nolint:gochecknoglobals
+
 var oddCodes = []int{200, 204, 299, 100, 103, 0, 5, 99, -1, 1000, 1200} //nolint:gochecknoglobals
 
 func genLeaf(r *vf.Rand, odd bool) node {
@@ -340,6 +346,7 @@ type c12Case struct {
 	Accept *string        `json:"accept"`
 	E      node           `json:"err"`
 	Sc     scenario       `json:"scenario"`
+	Probe  int            `json:"probe_code"` // redirect handler code tried against the real constructor
 }
 
 var accepts = []string{ //nolint:gochecknoglobals
@@ -377,6 +384,7 @@ func gen(r *vf.Rand) c12Case {
 	}
 
 	c.E = genTree(r, r.Range(1, 6), odd, !c.R.Verbose)
+	c.Probe = vf.Pick(r, probeCodes)
 
 	switch x := r.Intn(100); {
 	case x < 45:
@@ -409,11 +417,7 @@ func gen(r *vf.Rand) c12Case {
 			}
 
 			if r.Chance(60) {
-				m.Code = vf.Pick(r, redirectCodes)
-			}
-
-			if odd && r.Chance(40) {
-				m.Code = vf.Pick(r, oddCodes)
+				m.Code = vf.Pick(r, handlerCodes)
 			}
 		default:
 			m.T = "www"
@@ -446,8 +450,10 @@ func corpus() []c12Case {
 		{R: stacks.Respond{Verbose: true}, Accept: &any, E: authz, Sc: scenario{T: "error"}},
 		// override to a success status (outside the hypotheses of never-success)
 		{R: stacks.Respond{Authn: 200}, E: node{K: "s", Kind: "authn"}, Sc: scenario{T: "error"}},
-		// redirect handler configured with code 200 through the real factory
-		{E: authz, Sc: scenario{T: "handled", M: &mech{T: "redirect", Code: 200, To: "http://idp"}}},
+		// a redirect handler with code 200 can no longer be created (fix: 6c5864d); boundaries of the accepted range
+		{E: authz, Sc: scenario{T: "error"}, Probe: 200},
+		{E: authz, Sc: scenario{T: "handled", M: &mech{T: "redirect", Code: 300, To: "http://idp"}}, Probe: 299},
+		{E: authz, Sc: scenario{T: "handled", M: &mech{T: "redirect", Code: 399, To: "http://idp"}}, Probe: 400},
 		// precedence: authentication deep inside wins over authorization at the head
 		{R: stacks.Respond{Verbose: true}, E: node{K: "c", Sub: []node{authz, {K: "w", Sub: []node{{K: "j", Sub: []node{
 			{K: "f", N: 1}, {K: "c", Ctx: true, Sub: []node{{K: "s", Kind: "authn"}}}}}}}}}, Sc: scenario{T: "error"}},
@@ -556,6 +562,7 @@ type obs struct {
 	Envoy    stacks.Result `json:"envoy"`
 	Or       oracle        `json:"oracle"`
 	Up       [][2]string   `json:"upstream_headers"` // handed to ctx.AddHeaderForUpstream by the mechanism
+	ProbeOK  bool          `json:"probe_ok"`         // the real constructor accepted a redirect handler with code Probe
 }
 
 func httpOpts(r stacks.Respond) []herr.Option {
@@ -728,6 +735,14 @@ func run(c c12Case) obs {
 	o.HTTP = translateHTTP(c, err)
 	o.GRPC = translateGRPC(c, err)
 
+	probeConf := map[string]any{"to": "x"}
+	if c.Probe != 0 {
+		probeConf["code"] = c.Probe
+	}
+
+	_, probeErr := errorhandlers.CreatePrototype(nil, "probe", errorhandlers.ErrorHandlerRedirect, probeConf)
+	o.ProbeOK = probeErr == nil
+
 	var rec [][2]string
 
 	exec := executorFor(c, err, &rec)
@@ -861,7 +876,8 @@ func coqCase(c c12Case, o obs) string {
 
 	return vf.CoqApp("mkcase", cfg, or, coqErr(c.E), sc, vf.CoqListOf(o.Is, vf.CoqBool), as,
 		coqHTTP(o.HTTP), coqGRPC(o.GRPC), coqHTTP(o.Decision), coqHTTP(o.Proxy), coqGRPC(o.Envoy),
-		vf.CoqListOf(o.Up, func(h [2]string) string { return vf.CoqPair(vf.CoqStr(h[0]), vf.CoqStr(h[1])) }))
+		vf.CoqListOf(o.Up, func(h [2]string) string { return vf.CoqPair(vf.CoqStr(h[0]), vf.CoqStr(h[1])) }),
+		vf.CoqPair(vf.CoqZ(int64(c.Probe)), vf.CoqBool(o.ProbeOK)))
 }
 
 func tags(c c12Case, o obs) []string {
